@@ -157,7 +157,33 @@ def favour_follow(rng, d, a):
     return a
 
 
-def gen_dictionary(rng, allow_float=True, overlap=False, shared=False):
+# FIX's own header and trailer fields.  A dictionary of the statement is free to use them like any other tag (every real dictionary
+# does): BeginString / BodyLength / MsgSeqNum / the comp ids / SendingTime in the header, SignatureLength / Signature / CheckSum in
+# the trailer — at any position of the dictionary, required or optional, assigned in any order ("any assignment order": CheckSum
+# before Signature, BodyLength after MsgSeqNum, …).  The codec gives none of these tags a meaning (framing is C14's); the statement's
+# "compares equal to the original" and "re-encodes identically" hold for them as for every other tag.
+STD_HEADER_FIELDS = [8, 9, 34, 49, 56, 50, 57, 52]
+STD_TRAILER_FIELDS = [(93, 'int'), (89, 'string'), (10, 'string')]          # 93 / 89 are not in fix_common.STD_FIELDS: plain fields
+
+
+def add_standard_fields(rng, pool, hdr, trl):
+    """insert a random subset of the standard header fields into `hdr` and of the standard trailer fields into `trl` (the trailer
+    gets CheckSum together with at least one more field most of the time: order in the trailer only shows with two fields or more)"""
+    hdr, trl = list(hdr), list(trl)
+    for t in rng.sample(STD_HEADER_FIELDS, rng.randint(0, len(STD_HEADER_FIELDS))):
+        hdr.insert(rng.randint(0, len(hdr)), ('f', t, fc.STD_TYPE[t], rng.random() < 0.5))
+    c = rng.random()
+    want = [10] if c < 0.15 else [93, 89, 10] if c < 0.55 else rng.sample([93, 89, 10], rng.randint(1, 3))
+    if 10 not in want and rng.random() < 0.7:
+        want.append(10)
+    for t, ty in STD_TRAILER_FIELDS:
+        if t in want and (t in fc.STD_TAGS or t not in pool.used):
+            pool.used.add(t)
+            trl.insert(rng.randint(0, len(trl)), ('f', t, ty, rng.random() < 0.5))
+    return hdr, trl
+
+
+def gen_dictionary(rng, allow_float=True, overlap=False, shared=False, standard=False):
     pool = fc.TagPool(rng)
     depth = rng.choice([0, 1, 1, 2, 2, 3])
     rest = fc.gen_entries(rng, pool, rng.randint(0, 3), min(depth, 1), allow_float)
@@ -176,6 +202,8 @@ def gen_dictionary(rng, allow_float=True, overlap=False, shared=False):
     if rng.random() < 0.4:
         rng.shuffle(hdr)
     trl = fc.gen_entries(rng, pool, rng.randint(0, 3), min(depth, 1), allow_float)
+    if standard:
+        hdr, trl = add_standard_fields(rng, pool, hdr, trl)
     types = set()
     while len(types) < rng.randint(1, 3):
         types.add(''.join(rng.choice(TYPE_CHARS) for _ in range(rng.randint(1, 2))))
@@ -405,6 +433,7 @@ def impl_rt_unguarded(mdefs_by_name, msg):
     try:
         r['coll'] = dec.as_collection()
         r['eq'] = bool(dec == msg)
+        r['eq_seg'] = {s: bool(getattr(dec, a) == getattr(msg, a)) for s, a in (('hdr', 'Header'), ('body', 'Body'), ('trl', 'Trailer'))}
         r['re'] = bytes(dec.to_bytes()[1])
     except Exception as e:  # noqa
         r['post_err'] = err_name(e)
@@ -620,11 +649,21 @@ def oracle_rt(ctx, d, m, msg, r, rep):
         bad(f'decode consumed {r["k"]} of {len(r["bytes"])} bytes', finding='consumed')
     if r['re'] != r['bytes']:
         bad('re-encoding the decoded message gives different bytes', finding='reencode')
+    seg_ne = [s for s in ('hdr', 'body', 'trl') if not r.get('eq_seg', {}).get(s, True)]
     if not r['eq']:
         same_values = fc.unordered(r['coll']) == fc.unordered(msg.as_collection())
         order = not fc.msg_groups_in_dict_order(d, m)
-        bad('decoded message != original' + (' (group instance assigned out of dictionary order)' if order else ''),
+        where = ''
+        if seg_ne:
+            names = {'hdr': 'header', 'body': 'body', 'trl': 'trailer'}
+            dm = fc.msg_of_collection(d, r['coll']) if same_values else None
+            where = '; ' + ', '.join(
+                names[s] + (f' holds its fields in the order {[t for t, _ in dm[s]]}, assigned {[t for t, _ in m[s]]}'
+                            if dm is not None and [t for t, _ in dm[s]] != [t for t, _ in m[s]] else ' differs') for s in seg_ne)
+        bad('decoded message != original' + (' (group instance assigned out of dictionary order)' if order else '') + where,
             finding='group-eq-order' if (order and same_values) else 'eq')
+    elif seg_ne:
+        bad(f'decoded message == original, yet its {"/".join(seg_ne)} segment(s) compare unequal to the original\'s', finding='eq')
     return ok
 
 
@@ -850,7 +889,8 @@ def rename(mdefs, d):
 
 def gen_entry(rng, i, n_msg, n_mal, n_dec):
     shared = i % 4 == 1
-    mdefs = gen_dictionary(rng, allow_float=(i % 3 != 2), overlap=(i % 11 == 10), shared=shared)
+    standard = i % 3 == 0          # every third dictionary uses the standard FIX header / trailer fields (tag 10 in the trailer, 8 / 9 / 34 … in the header)
+    mdefs = gen_dictionary(rng, allow_float=(i % 3 != 2), overlap=(i % 11 == 10), shared=shared, standard=standard)
     entry = {'mdefs': mdefs, 'wf': [], 'mal': [], 'dec': []}
     seeds = []
     for _ in range(n_msg):
@@ -920,6 +960,12 @@ def execute_plan(ctx, rng, plan):
             for s_ in ('hdr', 'body', 'trl'):
                 for cls_ in text_classes(m[s_]):
                     ctx.count(f'wf:text:{s_}:{cls_}')
+            tk = [t for t, _ in m['trl']]
+            if 10 in tk and len(tk) >= 2:
+                ctx.count('wf:trailer:CheckSum-' + ('assigned-last' if tk[-1] == 10 else 'assigned-before-another-trailer-field'))
+            hk = [t for t, _ in m['hdr']]
+            if len(hk) >= 3 and any(t in (8, 9, 34) for t in hk):
+                ctx.count('wf:header:standard-fields:' + ('BeginString-first' if hk[0] == 8 else 'any-order'))
             if shares_tags(d):
                 hits = []
                 ctx.count('wf:reused-tags:' + ('in-domain' if dom else 'out-of-domain'))
@@ -1060,7 +1106,8 @@ def run(ctx):
     n_mal = 4 if quick else 6
     n_dec = 12 if quick else 20
     ctx.cov['rule'] = ('random dictionaries (header with MsgType + 0-3 entries, 1-3 message classes with 0-6 body entries, trailer 0-3; '
-                       'types int/float/bool/char/string; groups nested to depth 3; tags 1-5 digits, pairwise distinct - and, every fourth '
+                       'types int/float/bool/char/string; groups nested to depth 3; tags 1-5 digits, pairwise distinct; every third dictionary uses the standard FIX header / trailer fields like any other tag - 8, 9, 34, 49, 56, 50, 57, 52 anywhere in the header, '
+                       '93, 89, 10 anywhere in the trailer, assigned in any order (CheckSum before Signature …) - and, every fourth '
                        'dictionary, groups that REUSE tags of their enclosing segment / outer group / first field of the outer group, with '
                        'the same-tag field assigned directly behind the group, judged by the oracle whenever the count alone ends every group '
                        '(no instance can take the field that follows it)) x messages '
@@ -1128,7 +1175,7 @@ def float_tokens_differ(a, b):
 # ------------------------------------------------------------------ replay
 def replay(ctx, path):
     r = json.load(open(path))
-    rep = r.get('replay') or (r.get('no_longer_checks') or [{}])[-1].get('case') or {}
+    rep = r.get('replay') or (r.get('no_longer_checks') or [{}])[-1].get('case') or r      # r: a corpus file
     ctx.cov['rule'] = 'replay of ' + path
     fix = fc.fixmod()
     kind = rep.get('kind')
